@@ -969,6 +969,11 @@ def run(ctx):
             '{-1,0,1,2} and {0,1,i}' if ctx.quick else '{-2..2} and {0,1,i,1+i,-i}', 8 if ctx.quick else 12),
         'chains': 'length 2-4 over scalars, vectors, square matrices (n=%s), one optional group' % (
             '2' if ctx.quick else '2,3'),
+        'scaled_part': '12 base matrices (7 rank-deficient, 5 regular; 2x2-4x4, real and complex) x scalar factors '
+                       '1/1000 .. 1000 and complex x exponents -3..-1 (and 2)',
+        'scalar_sources': '11 renderings of a scalar operand (function calls det/trace/abs/sqrt/norm/re/conj, negated '
+                          'calls, a dot product, parentheses) x scalars x arrays x 5 operators x both sides',
+        'dependent_graders': 'grader forms and switch histories also with DependentSampler variables in sample_from',
         'literal_trees': 'bracket trees of depth <= 3 with <= 3 items per bracket (rectangular and ragged)',
         'scope_histories': 'all call histories of length <= %d over 6 call kinds' % (3 if ctx.quick else 4),
         'random_records': n, 'random_shapes': 'up to 6 x 6, tensors up to 3x3x3, chains of 3-6 operands, exponents -4..4'}
@@ -980,6 +985,7 @@ def run(ctx):
         'part are not generated (the statement names integer, integer-valued float, non-integer, negative)',
         'product chains contain scalars, vectors and square matrices only: with a single-column matrix a chain of '
         'three vectors is unambiguous and the statement does not say whether it must be refused',
+        'a scalar written as det(...) is not used as an exponent (numpy: det([[3,0],[0,1]]) = 3.0000000000000004)',
         'one-element arrays are not generated as operands (quantifier: more than one element); one-element results '
         'are compared as numbers']
 
